@@ -61,7 +61,7 @@ pub open spec fn adaptive_ok(info: AdaptiveFeeInfo, tick_spacing: u16) -> bool {
     && info.constants.major_swap_threshold_ticks as int <= 443636
 }
 
-//@ fn manager/swap_manager.rs swap -> r nodec as=swap_adaptive
+//@ fn manager/swap_manager.rs swap -> r nodec as=swap_adaptive canary
     requires
         *adaptive_fee_info matches Some(info) && adaptive_ok(info, whirlpool.tick_spacing),
         whirlpool.fee_rate <= 60_000, whirlpool.protocol_fee_rate <= 2_500, whirlpool.tick_spacing > 0,
@@ -146,6 +146,10 @@ pub open spec fn adaptive_ok(info: AdaptiveFeeInfo, tick_spacing: u16) -> bool {
             let ghost g_rem_before = amount_remaining;
 //@ inject before /let \(next_protocol_fee, next_fee_growth_global_input\) = calculate_fees\(/
             proof { assert(curr_liquidity == g_step_liquidity && curr_sqrt_price == g_step_price); } //# C06 C01
+            let ghost g_proto_before = curr_protocol_fee; let ghost g_growth_before = curr_fee_growth_global_input;
+//@ inject before /^\s*curr_protocol_fee = next_protocol_fee;/
+            // C06 / C01: the split that is booked is the one of THIS step's fee, with the pool's protocol rate, against the liquidity in range during the step and the running accumulators
+            proof { assert(fees_booked(swap_computation.fee_amount, protocol_fee_rate, g_step_liquidity, g_proto_before, g_growth_before, next_protocol_fee, next_fee_growth_global_input)); } //# C06 C01
             // a step that stops short of its (bounded) target has used up the whole amount
             proof { assert(swap_computation.next_price != bounded_sqrt_price_target ==> amount_remaining == 0); }
 //@ inject before /^\s*if !?adaptive_fee_update_skipped \{/
